@@ -6,8 +6,15 @@ namespace DustVerif.Plist
 theorem rd16_le16 (n : Nat) (h : n < 65536) : rd16 .le (n % 256) (n / 256 % 256) = n := by
   simp only [rd16]; omega
 
+theorem rd16_be16 (n : Nat) (h : n < 65536) : rd16 .be (n / 256 % 256) (n % 256) = n := by
+  simp only [rd16]; omega
+
 theorem rd32_le32 (n : Nat) (h : n < 4294967296) :
     rd32 .le (n % 256) (n / 256 % 256) (n / 65536 % 256) (n / 16777216 % 256) = n := by
+  simp only [rd32]; omega
+
+theorem rd32_be32 (n : Nat) (h : n < 4294967296) :
+    rd32 .be (n / 16777216 % 256) (n / 65536 % 256) (n / 256 % 256) (n % 256) = n := by
   simp only [rd32]; omega
 
 theorem toI32_ofI32 (i : Int) (h1 : -2147483648 ≤ i) (h2 : i < 2147483648) : toI32 (ofI32 i) = i := by
@@ -50,30 +57,33 @@ theorem takeN_append (pos : Nat) (v rest : Bytes) :
     takeN v.length ⟨pos, v ++ rest⟩ = .ok (v, ⟨pos + v.length, rest⟩) := by
   simp [takeN]
 
-theorem rdU32_enc (e : End) (pos n : Nat) (rest : Bytes) (h : n < 4294967296) (he : e = .le) :
-    rdU32 e ⟨pos, zeros (padTo 4 pos) ++ (le32 n ++ rest)⟩ = .ok (n, ⟨pos + padTo 4 pos + 4, rest⟩) := by
-  subst he
-  simp only [rdU32, alignTo_zeros, le32, List.cons_append, List.nil_append, rd32_le32 n h]
+theorem rdU32_enc (e : End) (pos n : Nat) (rest : Bytes) (h : n < 4294967296) :
+    rdU32 e ⟨pos, zeros (padTo 4 pos) ++ (enc32 e n ++ rest)⟩ = .ok (n, ⟨pos + padTo 4 pos + 4, rest⟩) := by
+  cases e
+  · simp only [rdU32, alignTo_zeros, enc32, List.cons_append, List.nil_append, rd32_le32 n h]
+  · simp only [rdU32, alignTo_zeros, enc32, List.cons_append, List.nil_append, rd32_be32 n h]
 
-theorem rdU16_enc (pos n : Nat) (rest : Bytes) (h : n < 65536) :
-    rdU16 .le ⟨pos, zeros (padTo 2 pos) ++ (le16 n ++ rest)⟩ = .ok (n, ⟨pos + padTo 2 pos + 2, rest⟩) := by
-  simp only [rdU16, alignTo_zeros, le16, List.cons_append, List.nil_append, rd16_le16 n h]
+theorem rdU16_enc (e : End) (pos n : Nat) (rest : Bytes) (h : n < 65536) :
+    rdU16 e ⟨pos, zeros (padTo 2 pos) ++ (enc16 e n ++ rest)⟩ = .ok (n, ⟨pos + padTo 2 pos + 2, rest⟩) := by
+  cases e
+  · simp only [rdU16, alignTo_zeros, enc16, List.cons_append, List.nil_append, rd16_le16 n h]
+  · simp only [rdU16, alignTo_zeros, enc16, List.cons_append, List.nil_append, rd16_be16 n h]
 
 
-@[simp] theorem le32_length (n : Nat) : (le32 n).length = 4 := rfl
-@[simp] theorem le16_length (n : Nat) : (le16 n).length = 2 := rfl
+@[simp] theorem le32_length (e : End) (n : Nat) : (enc32 e n).length = 4 := by cases e <;> rfl
+@[simp] theorem le16_length (e : End) (n : Nat) : (enc16 e n).length = 2 := by cases e <;> rfl
 
 /-- a string the encoder can write and the decoder accepts: valid UTF-8, length fits the u32 -/
 def StrOk (s : Bytes) : Prop := utf8Valid s = true ∧ s.length + 1 < 4294967296
 
-theorem encStr_length (s : Bytes) (pos : Nat) : (encStr s pos).length = padTo 4 pos + 4 + s.length + 1 := by
+theorem encStr_length (e : End) (s : Bytes) (pos : Nat) : (encStr e s pos).length = padTo 4 pos + 4 + s.length + 1 := by
   simp [encStr]; omega
 
-theorem rdStr_enc (strict : Bool) (cfg : Cfg) (s : Bytes) (pos : Nat) (rest : Bytes) (h : StrOk s) :
-    rdStr strict cfg .le ⟨pos, encStr s pos ++ rest⟩ = .ok (s, ⟨pos + (encStr s pos).length, rest⟩) := by
+theorem rdStr_enc (strict : Bool) (cfg : Cfg) (e : End) (s : Bytes) (pos : Nat) (rest : Bytes) (h : StrOk s) :
+    rdStr strict cfg e ⟨pos, encStr e s pos ++ rest⟩ = .ok (s, ⟨pos + (encStr e s pos).length, rest⟩) := by
   obtain ⟨hu, hl⟩ := h
   have hm : (s.length + 1) % 4294967296 = s.length + 1 := Nat.mod_eq_of_lt hl
-  simp only [rdStr, encStr, List.append_assoc, hm, rdU32_enc .le pos (s.length + 1) _ hl rfl]
+  simp only [rdStr, encStr, List.append_assoc, hm, rdU32_enc e pos (s.length + 1) _ hl]
   have h0 : (s.length + 1 == 0) = false := by simp
   simp only [h0, Bool.false_and, Bool.false_eq_true, if_false, Nat.add_sub_cancel, takeN_append, rdU8,
     List.cons_append, List.nil_append, hu, if_true, List.length_append, zeros_length, le32_length, List.length_cons,
@@ -83,29 +93,29 @@ theorem rdStr_enc (strict : Bool) (cfg : Cfg) (s : Bytes) (pos : Nat) (rest : By
   omega
 
 
-theorem rdStrs_enc (cfg : Cfg) (l : List Bytes) : ∀ (pos : Nat) (rest : Bytes), (∀ s ∈ l, StrOk s) →
-    rdStrs cfg .le l.length ⟨pos, encStrs l pos ++ rest⟩ = .ok (l, ⟨pos + (encStrs l pos).length, rest⟩) := by
+theorem rdStrs_enc (cfg : Cfg) (e : End) (l : List Bytes) : ∀ (pos : Nat) (rest : Bytes), (∀ s ∈ l, StrOk s) →
+    rdStrs cfg e l.length ⟨pos, encStrs e l pos ++ rest⟩ = .ok (l, ⟨pos + (encStrs e l pos).length, rest⟩) := by
   induction l with
   | nil => intro pos rest _; simp [rdStrs, encStrs]
   | cons s l ih =>
     intro pos rest h
     have hs : StrOk s := h s (by simp)
     have hl : ∀ t ∈ l, StrOk t := fun t ht => h t (by simp [ht])
-    simp only [List.length_cons, rdStrs, encStrs, List.append_assoc, rdStr_enc false cfg s pos _ hs, ih _ rest hl,
+    simp only [List.length_cons, rdStrs, encStrs, List.append_assoc, rdStr_enc false cfg e s pos _ hs, ih _ rest hl,
       List.length_append]
     congr 2
     simp only [Cur.mk.injEq, and_true]
     omega
 
-theorem rdU16s_enc (l : List Nat) : ∀ (pos : Nat) (rest : Bytes), (∀ x ∈ l, x < 65536) →
-    rdU16s .le l.length ⟨pos, encU16s l pos ++ rest⟩ = .ok (l, ⟨pos + (encU16s l pos).length, rest⟩) := by
+theorem rdU16s_enc (e : End) (l : List Nat) : ∀ (pos : Nat) (rest : Bytes), (∀ x ∈ l, x < 65536) →
+    rdU16s e l.length ⟨pos, encU16s e l pos ++ rest⟩ = .ok (l, ⟨pos + (encU16s e l pos).length, rest⟩) := by
   induction l with
   | nil => intro pos rest _; simp [rdU16s, encU16s]
   | cons v l ih =>
     intro pos rest h
     have hv : v < 65536 := h v (by simp)
     have hl : ∀ t ∈ l, t < 65536 := fun t ht => h t (by simp [ht])
-    simp only [List.length_cons, rdU16s, encU16s, List.append_assoc, rdU16_enc pos v _ hv, ih _ rest hl,
+    simp only [List.length_cons, rdU16s, encU16s, List.append_assoc, rdU16_enc e pos v _ hv, ih _ rest hl,
       List.length_append, zeros_length, le16_length]
     congr 2
     simp only [Cur.mk.injEq, and_true]
@@ -138,28 +148,28 @@ theorem reserve_false (cfg : Cfg) (n k rem : Nat) (h : n * k ≤ allocLimit) : r
 
 /-- every member kind: what the decoder reads from what the encoder wrote is the value, and the cursor is
     exactly behind it — for both configurations and any position -/
-theorem decPrim_enc (cfg : Cfg) (p : Prim) (v : PVal) (pos : Nat) (rest : Bytes) (h : WFp p v) :
-    decPrim cfg .le p ⟨pos, encPrim p v pos ++ rest⟩ = .ok (v, ⟨pos + (encPrim p v pos).length, rest⟩) := by
+theorem decPrim_enc (cfg : Cfg) (e : End) (p : Prim) (v : PVal) (pos : Nat) (rest : Bytes) (h : WFp p v) :
+    decPrim cfg e p ⟨pos, encPrim e p v pos ++ rest⟩ = .ok (v, ⟨pos + (encPrim e p v pos).length, rest⟩) := by
   cases p <;> cases v <;> simp only [WFp] at h
   case u8.n x => simp [decPrim, encPrim, rdU8]
   case i16.i x =>
-    simp only [decPrim, encPrim, List.append_assoc, rdU16_enc pos _ rest (ofI16_lt x), toI16_ofI16 x h.1 h.2,
+    simp only [decPrim, encPrim, List.append_assoc, rdU16_enc e pos _ rest (ofI16_lt x), toI16_ofI16 x h.1 h.2,
       List.length_append, zeros_length, le16_length]
     congr 2 <;> (try simp only [Cur.mk.injEq, and_true]) <;> (try omega)
   case enum16.i vals x =>
-    simp only [decPrim, encPrim, List.append_assoc, rdU16_enc pos _ rest (ofI16_lt x), toI16_ofI16 x h.1 h.2,
+    simp only [decPrim, encPrim, List.append_assoc, rdU16_enc e pos _ rest (ofI16_lt x), toI16_ofI16 x h.1 h.2,
       List.length_append, zeros_length, le16_length]
     congr 2 <;> (try simp only [Cur.mk.injEq, and_true]) <;> (try omega)
   case i32.i x =>
-    simp only [decPrim, encPrim, List.append_assoc, rdU32_enc .le pos _ rest (ofI32_lt x) rfl, toI32_ofI32 x h.1 h.2,
+    simp only [decPrim, encPrim, List.append_assoc, rdU32_enc e pos _ rest (ofI32_lt x), toI32_ofI32 x h.1 h.2,
       List.length_append, zeros_length, le32_length]
     congr 2 <;> (try simp only [Cur.mk.injEq, and_true]) <;> (try omega)
   case enum32.i vals x =>
-    simp only [decPrim, encPrim, List.append_assoc, rdU32_enc .le pos _ rest (ofI32_lt x) rfl, toI32_ofI32 x h.1 h.2,
+    simp only [decPrim, encPrim, List.append_assoc, rdU32_enc e pos _ rest (ofI32_lt x), toI32_ofI32 x h.1 h.2,
       List.length_append, zeros_length, le32_length]
     congr 2 <;> (try simp only [Cur.mk.injEq, and_true]) <;> (try omega)
   case u32.n x =>
-    simp only [decPrim, encPrim, List.append_assoc, rdU32_enc .le pos _ rest h rfl,
+    simp only [decPrim, encPrim, List.append_assoc, rdU32_enc e pos _ rest h,
       List.length_append, zeros_length, le32_length]
     congr 2 <;> (try simp only [Cur.mk.injEq, and_true]) <;> (try omega)
   case boolC.b x => cases x <;> simp [decPrim, encPrim, rdU8]
@@ -167,22 +177,22 @@ theorem decPrim_enc (cfg : Cfg) (p : Prim) (v : PVal) (pos : Nat) (rest : Bytes)
   case arr.bs n x =>
     subst h
     simp only [decPrim, encPrim, takeN_append]
-  case strC.bs s => simp only [decPrim, encPrim, rdStr_enc true cfg s pos rest h]
-  case strX.bs s => simp only [decPrim, encPrim, rdStr_enc false cfg s pos rest h]
+  case strC.bs s => simp only [decPrim, encPrim, rdStr_enc true cfg e s pos rest h]
+  case strX.bs s => simp only [decPrim, encPrim, rdStr_enc false cfg e s pos rest h]
   case octets.bs x =>
-    simp only [decPrim, encPrim, List.append_assoc, Nat.mod_eq_of_lt h, rdU32_enc .le pos _ _ h rfl, takeN_append,
+    simp only [decPrim, encPrim, List.append_assoc, Nat.mod_eq_of_lt h, rdU32_enc e pos _ _ h, takeN_append,
       List.length_append, zeros_length, le32_length]
     congr 2 <;> (try simp only [Cur.mk.injEq, and_true]) <;> (try omega)
   case strs.ss l =>
     obtain ⟨h1, h2, h3⟩ := h
-    simp only [decPrim, encPrim, List.append_assoc, Nat.mod_eq_of_lt h1, rdU32_enc .le pos _ _ h1 rfl,
-      reserve_false cfg _ 24 _ h2, Bool.false_eq_true, if_false, rdStrs_enc cfg l _ rest h3,
+    simp only [decPrim, encPrim, List.append_assoc, Nat.mod_eq_of_lt h1, rdU32_enc e pos _ _ h1,
+      reserve_false cfg _ 24 _ h2, Bool.false_eq_true, if_false, rdStrs_enc cfg e l _ rest h3,
       List.length_append, zeros_length, le32_length]
     congr 2 <;> (try simp only [Cur.mk.injEq, and_true]) <;> (try omega)
   case u16s.ns l =>
     obtain ⟨h1, h2, h3⟩ := h
-    simp only [decPrim, encPrim, List.append_assoc, Nat.mod_eq_of_lt h1, rdU32_enc .le pos _ _ h1 rfl,
-      reserve_false cfg _ 2 _ h2, Bool.false_eq_true, if_false, rdU16s_enc l _ rest h3,
+    simp only [decPrim, encPrim, List.append_assoc, Nat.mod_eq_of_lt h1, rdU32_enc e pos _ _ h1,
+      reserve_false cfg _ 2 _ h2, Bool.false_eq_true, if_false, rdU16s_enc e l _ rest h3,
       List.length_append, zeros_length, le32_length]
     congr 2 <;> (try simp only [Cur.mk.injEq, and_true]) <;> (try omega)
 
@@ -193,9 +203,10 @@ def WFm : List Prim → List PVal → Prop
   | p :: ps, v :: vs => WFp p v ∧ WFm ps vs
   | _, _ => False
 
-theorem decMembers_enc (cfg : Cfg) (ps : List Prim) : ∀ (vs : List PVal) (pos : Nat) (rest : Bytes), WFm ps vs →
-    decMembers cfg .le ps ⟨pos, encMembers ps vs pos ++ rest⟩
-      = .ok (vs, ⟨pos + (encMembers ps vs pos).length, rest⟩) := by
+theorem decMembers_enc (cfg : Cfg) (e : End) (ps : List Prim) :
+    ∀ (vs : List PVal) (pos : Nat) (rest : Bytes), WFm ps vs →
+    decMembers cfg e ps ⟨pos, encMembers e ps vs pos ++ rest⟩
+      = .ok (vs, ⟨pos + (encMembers e ps vs pos).length, rest⟩) := by
   induction ps with
   | nil =>
     intro vs pos rest h
@@ -208,7 +219,7 @@ theorem decMembers_enc (cfg : Cfg) (ps : List Prim) : ∀ (vs : List PVal) (pos 
     | nil => simp [WFm] at h
     | cons v vs =>
       obtain ⟨h1, h2⟩ := h
-      simp only [decMembers, encMembers, List.append_assoc, decPrim_enc cfg p v pos _ h1, ih vs _ rest h2,
+      simp only [decMembers, encMembers, List.append_assoc, decPrim_enc cfg e p v pos _ h1, ih vs _ rest h2,
         List.length_append]
       congr 2 <;> (try simp only [Cur.mk.injEq, and_true]) <;> (try omega)
 
@@ -238,9 +249,9 @@ def WFc (c : Codec) (vs : List PVal) : Prop :=
   WFm c.members (normPost c.post vs) ∧ enumsOk c.members (normPost c.post vs) = true
 
 /-- a parameter value round-trips (padding or anything else may follow it) -/
-theorem decCodec_enc (cfg : Cfg) (c : Codec) (vs : List PVal) (pad : Bytes) (h : WFc c vs) :
-    decCodec cfg .le c (encCodec c vs ++ pad) = .ok (some (normPost c.post vs)) := by
+theorem decCodec_enc (cfg : Cfg) (e : End) (c : Codec) (vs : List PVal) (pad : Bytes) (h : WFc c vs) :
+    decCodec cfg e c (encCodec e c vs ++ pad) = .ok (some (normPost c.post vs)) := by
   obtain ⟨h1, h2⟩ := h
-  simp only [decCodec, encCodec, decMembers_enc cfg c.members _ 0 pad h1, sample, h2, if_true, normPost_idem]
+  simp only [decCodec, encCodec, decMembers_enc cfg e c.members _ 0 pad h1, sample, h2, if_true, normPost_idem]
 
 end DustVerif.Plist
